@@ -1,7 +1,7 @@
 (* Non-vacuity: concrete services, requests and streams that satisfy the hypotheses of
    the theorems in ServiceProofs.v (all by computation). *)
 From Coq Require Import String Ascii.
-From VL Require Import Base Json Schema Wire Service Script ServiceProofs.
+From VL Require Import Base Json Schema Wire Service Script ServiceProofs ServiceCap.
 From VLG Require Import WireGen.
 Open Scope N_scope.
 
@@ -63,3 +63,22 @@ Example ex_upgrade :
   exists i o, arun ex_svc (ARun []) (frame_of up) = (AUp i, o) /\
               spec_out ex_svc (frame_of up ++ b "raw bytes") = o ++ b "raw bytes".
 Proof. eexists. eexists. split; vm_compute; reflexivity. Qed.
+
+(* the transient-slice caller (test.rs, ping's listen_multiplex) and the inner 8192-byte BufReader: an upgrade
+   request followed, in the same buffer, by more than a block of payload - the bytes beyond the block never reach
+   the upgraded handler (known finding C02 class=SliceCallerBeyondBlock); within one block nothing is lost *)
+Definition ex_up_frame : bytes :=
+  frame_of (b "{""upgrade"":true,""method"":""org.example.a.Run"",""parameters"":{""script"":[""u"",""r""]}}").
+
+Definition ex_big_up (n : N) : bytes := ex_up_frame ++ repeat 120 (N.to_nat n).
+
+Example ex_slice_caller_drops_beyond_block :
+  Nat.ltb (length (snd (feed_all_cap bufreader_capacity ex_svc [ex_big_up 9000])))
+          (length (snd (feed_all ex_svc [ex_big_up 9000]))) = true.
+Proof. vm_compute. reflexivity. Qed.
+
+Example ex_slice_caller_within_block :
+  Nat.leb (total [ex_big_up 8000]) bufreader_capacity = true /\
+  feed_all_cap bufreader_capacity ex_svc [firstn 50 (ex_big_up 8000); skipn 50 (ex_big_up 8000)]
+  = feed_all ex_svc [ex_big_up 8000].
+Proof. split; vm_compute; reflexivity. Qed.
